@@ -215,6 +215,15 @@ func (r *Report) writeEvidence(stats map[string]*ruleStat, distinct, total, disc
 	}
 	seed := 0
 	fmt.Sscan(os.Getenv("VERIF_SEED"), &seed)
+	if r.Assume == nil {
+		r.Assume = []string{"none beyond the trusted base listed in coverage.trusted_base"}
+	}
+	if r.Trusted == nil {
+		r.Trusted = []string{}
+	}
+	if r.Notes == nil {
+		r.Notes = []string{}
+	}
 	cov := map[string]any{
 		"explanation":         r.Explain,
 		"evaluations":         total,
